@@ -13,7 +13,7 @@ RULE = ('case = a netlist built through the public API from a seeded abstract de
 
 def run(rep, tier, seed):
     failed = _pv.run_suite(rep, PID, 'ecomposer', tier)
-    rep.explanation = ('helper level (P): ComposeEdif._get_wire_index_(cable, wire) == position of the wire in cable.wires + cable.lower_index for every listed wire (TypeError only for an unlisted one), for all heaps satisfying Inv; everything else: '
+    rep.explanation = ('helper level (P): ComposeEdif._get_wire_index_(cable, wire) == position of the wire in cable.wires + cable.lower_index for every listed wire (TypeError only for an unlisted one), for all heaps satisfying Inv; Bundle.is_scalar / is_array getters on Port and Cable receivers (the test for the array spelling): scalar iff at most one bit and the stored flag, array its negation, writing nothing; their setters (the record of the spelling read): refused exactly for a one-bit claim about a wider bundle and then changing nothing, otherwise read back as written with nothing else changed; everything else: '
                        'bounded stand-in: canon(parse(compose(n))) == canon(n) with ports in order, nets with name/width/base and '
                        'per-bit endpoints in order, typed instance properties, top and names; the written file is accepted by the reader, '
                        'is a balanced s-expression defining cells before use (independent s-expression reading); Inv of the re-read netlist')
